@@ -150,4 +150,50 @@ PROPS = {
                         "the filestore root is absolute and already normal, and the directory containing it exists",
                         "Deny on a missing target reports NotAllowed (pinned by the repository's own tests)"],
     },
+    "C15": {
+        "props_files": ["C15"],
+        "theorems": ["C15_clean_accepted", "C15_crc_affine", "C15_single_bit", "C15_double_bit_window", "C15_burst16",
+                     "C15_odd_weight", "C15_frame_delimited_by_header", "C15_corrupt_rejected",
+                     "C15_model_check_rejects", "C15_model_check_clean"],
+        "components": ["crc"],
+        "rule": "cases = (a) CRC values: 7 fixed vectors, seeded random messages of length 0..300 (all-zero / all-ones / boundary-octet / "
+                "random contents), all 65536 two-octet messages, (state, octet) pairs through 3-octet messages (96 x 256 quick, all "
+                "2^24 thorough); (b) per valid CRC-bearing PDU made by the real encoder (16 kinds: EOF with/without fault location, "
+                "Finished plain / with filestore responses / with fault location, ACK of EOF / of Finished, Metadata with/without "
+                "options, NAK with/without segment requests, Prompt, KeepAlive, file data unsegmented / segmented / long; both "
+                "file-size flags; entity-id widths 1/2/4/8; plus a 40-option Metadata and a 30-request NAK) three cases: every "
+                "single-bit flip at every bit >= 32, every pair of flips within a 40-bit window, burst patterns of <= 16 bits "
+                "(exhaustive up to a length that depends on the frame size, seeded sample above it; long frames sampled in the quick "
+                "tier), the same errors with other octets following the frame in the same arrival, the same PDU without the "
+                "CRC (frame delimitation only), and errors outside the classes that break the CRC (scattered flips, replaced or "
+                "exchanged octets, long bursts: the decoder must reject them because the check fails); non-trivial = at least 2 ops; distinct = distinct op-list text",
+        "explanation": "Theorems over Model/Crc.v (the octet-wise CRC-16 routine of pdu.rs, over N with the u16 masks written out) for "
+                       "messages and error patterns of every length; the finite parts (2^16 register states, 2^16 sixteen-bit words, "
+                       "one orbit of 32766 shifts) are vm_compute sweeps lifted by forallb_forall with the bound in the statement. "
+                       "The model is tied to pdu.rs by differential execution: verif_crc16 vs the extracted crc16, and real "
+                       "PDU::decode on corrupted real encodings vs the extracted receiver_frame_check (frame_span from the header, "
+                       "then crc_frame_ok) on the same octets, and the number of octets consumed vs receiver_consumed; an oracle independent "
+                       "of the model (bit-serial reference CRC; 'decoded PDU differs from the original' / 'unaltered encoding not "
+                       "accepted') evaluates the property itself on the implementation's outputs.",
+        "level_text": "Full proof on the model, for frames and error patterns of unbounded length: an unaltered frame passes the receiver's "
+                      "CRC check; a frame hit by any single-bit error, any double-bit error less than 32767 bit positions apart (the "
+                      "window is shown tight by a counterexample at distance 32767), any non-zero error confined to 16 consecutive bits, "
+                      "or any error of odd weight fails it; the frame the receiver delimits depends on the first four octets only; hence "
+                      "every decoder that accepts a CRC-flagged PDU only if the octets it delimited pass the check rejects every such "
+                      "corrupted PDU whose first four octets are intact (C15_corrupt_rejected, the decoder is a parameter with that one "
+                      "hypothesis). That PDU::decode is such a decoder is by construction of the codec model's decoder and is tied to "
+                      "the Rust code by the correspondence streams (real decode vs model frame check on every generated corruption). "
+                      "This is the right level because the property quantifies over all PDUs and all errors of the classes.",
+        "level_note": "Trusted: Coq kernel and vm_compute; extraction (ExtrOcamlBasic); OCaml driver and Rust harness (pattern "
+                      "enumeration is implemented twice, once per side). Not proved here: that PDU::decode computes the CRC over "
+                      "exactly the octets of the delimited frame and compares it with the last two (hypothesis decode_checks_crc of "
+                      "C15_corrupt_rejected; established for the codec model by construction, for the Rust code by correspondence). "
+                      "A panic of the decoder on a corrupted frame counts as a rejection here (panics are property C06) and is logged "
+                      "as a NOTE line in oracle.txt.",
+        "assumptions": ["PDU::decode, when the header's CRC flag is set, returns Ok only if crc16(header + data field octets as received) "
+                        "equals the two octets that follow (true of the code after /repo commit dded641; compared on every run)",
+                        "the error leaves the first four octets (flags, PDU data field length, id-length octet) unchanged, as the "
+                        "property states; double-bit errors are covered when less than 32767 bit positions apart (always the case "
+                        "for PDUs of up to 4095 octets)"],
+    },
 }
